@@ -170,3 +170,466 @@ Lemma cycle_unexisting_fails :
   serr (load_main ex_unexisting [97]%N) = Some (EUnexisting [98] [[88]])%N /\
   spec_resolve ex_unexisting [98]%N [88]%N = Some ([97], [88])%N.
 Proof. split; vm_compute; reflexivity. Qed.
+
+(* ------------------------------------------------------------------ generic induction over load *)
+Lemma has_err_false s : has_err s = false <-> serr s = None.
+Proof. unfold has_err. destruct (serr s); split; intro H; try reflexivity; discriminate. Qed.
+
+Section LoadRel.
+  Variable fs : list (list N * gfile).
+  Variable R : st -> st -> Prop.
+  Hypothesis R_refl : forall s, R s s.
+  Hypothesis R_trans : forall a b c, R a b -> R b c -> R a c.
+  Hypothesis R_set_err : forall e s, serr s = None -> R s (set_err e s).
+  Hypothesis R_enter : forall a s, serr s = None -> has_ns s a = false -> R s (enter a s).
+  Hypothesis R_add_imported : forall cur a s, serr s = None -> R s (add_imported cur a s).
+  Hypothesis R_note_back : forall cur a s, serr s = None -> R s (note_back cur a s).
+  Hypothesis R_log_load : forall ns s, serr s = None -> R s (log_load ns s).
+  Hypothesis R_new_class : forall ns f r s, serr s = None -> aget ns fs = Some f -> In r (grules f) ->
+                                            R s (new_class ns r s).
+  Hypothesis R_second : forall ns f s, serr s = None -> aget ns fs = Some f -> R s (second_pass ns f s).
+
+  Lemma new_import_rel rec stk cur imp s :
+    (forall a t, R t (rec a t)) -> R s (new_import rec stk cur imp s).
+  Proof.
+    intro Hrec. unfold new_import. destruct (has_err s) eqn:He; [apply R_refl|].
+    apply has_err_false in He.
+    set (a := abs_import cur imp).
+    set (s1 := if has_ns s a then if mem_str a stk then note_back cur a s else s else rec a (enter a s)).
+    assert (H1 : R s s1).
+    { unfold s1. destruct (has_ns s a) eqn:Hn.
+      - destruct (mem_str a stk); [apply R_note_back; exact He | apply R_refl].
+      - apply (R_trans _ (enter a s)); [apply R_enter; assumption | apply Hrec]. }
+    destruct (has_err s1) eqn:He1; [exact H1|].
+    apply has_err_false in He1. eapply R_trans; [exact H1 | apply R_add_imported; exact He1].
+  Qed.
+
+  Lemma fold_imports_rel rec stk cur imps s :
+    (forall a t, R t (rec a t)) ->
+    R s (fold_left (fun s imp => new_import rec stk cur imp s) imps s).
+  Proof.
+    intro Hrec. revert s. induction imps as [|i imps IH]; intro s; cbn [fold_left]; [apply R_refl|].
+    apply (R_trans _ (new_import rec stk cur i s)); [apply new_import_rel; exact Hrec | apply IH].
+  Qed.
+
+  Lemma new_class_err ns r s : serr s <> None -> new_class ns r s = s.
+  Proof. intro H. unfold new_class, has_err. destruct (serr s); [reflexivity | contradiction]. Qed.
+
+  Lemma fold_classes_rel ns f rs s :
+    aget ns fs = Some f -> incl rs (grules f) ->
+    R s (fold_left (fun s r => new_class ns r s) rs s).
+  Proof.
+    intros Hf. revert s. induction rs as [|r rs IH]; intros s Hin; cbn [fold_left]; [apply R_refl|].
+    apply (R_trans _ (new_class ns r s)).
+    - destruct (serr s) eqn:He.
+      + rewrite new_class_err by (rewrite He; discriminate). apply R_refl.
+      + apply (R_new_class ns f r s He Hf). apply Hin. left. reflexivity.
+    - apply IH. intros x Hx. apply Hin. right. exact Hx.
+  Qed.
+
+  Lemma second_pass_err ns f s : serr s <> None -> second_pass ns f s = s.
+  Proof. intro H. unfold second_pass, has_err. destruct (serr s); [reflexivity | contradiction]. Qed.
+
+  Lemma load_rel : forall fuel stk ns s, R s (load fuel fs stk ns s).
+  Proof.
+    induction fuel as [|fuel IH]; intros stk ns s; cbn [load];
+      (destruct (has_err s) eqn:He; [apply R_refl|]); apply has_err_false in He;
+      (destruct (aget ns fs) as [f|] eqn:Hf; [|apply R_set_err; exact He]).
+    - apply R_set_err; exact He.
+    - cbv zeta.
+      set (s0 := log_load ns s).
+      set (s1 := fold_left _ (gimports f) s0).
+      set (s2 := fold_left _ (grules f) s1).
+      apply (R_trans _ s0); [apply R_log_load; exact He|].
+      apply (R_trans _ s1); [apply fold_imports_rel; intros a t; apply IH|].
+      apply (R_trans _ s2); [apply (fold_classes_rel ns f); [exact Hf | apply incl_refl]|].
+      destruct (serr s2) eqn:He2.
+      + rewrite second_pass_err by (rewrite He2; discriminate). apply R_refl.
+      + apply R_second; assumption.
+  Qed.
+End LoadRel.
+
+(* ------------------------------------------------------------------ effect of the primitive steps *)
+Lemma lookup_in_enter a s b n : has_ns s a = false -> lookup_in (enter a s) b n = lookup_in s b n.
+Proof.
+  unfold has_ns, lookup_in, enter; cbn [spaces]. intro H. rewrite aget_app.
+  destruct (aget b (spaces s)) as [d|] eqn:E; [reflexivity|].
+  cbn [aget]. destruct (str_eqb b a); reflexivity.
+Qed.
+
+Lemma has_ns_enter a s k : has_ns (enter a s) k = has_ns s k || str_eqb k a.
+Proof.
+  unfold has_ns, enter; cbn [spaces]. rewrite aget_app.
+  destruct (aget k (spaces s)); [reflexivity|]. cbn [aget]. destruct (str_eqb k a); reflexivity.
+Qed.
+
+Definition mk_cls (s : st) (ns : list N) (r : rule) : cls := {| c_id := created s; c_ns := ns; c_name := rname r |}.
+
+Lemma lookup_in_new_class ns r s a n : serr s = None ->
+  lookup_in (new_class ns r s) a n =
+  if str_eqb a ns && has_ns s ns && str_eqb n (rname r) then Some (mk_cls s ns r) else lookup_in s a n.
+Proof.
+  intro He. unfold new_class. apply has_err_false in He. rewrite He.
+  unfold lookup_in, has_ns; cbn [spaces]. destruct (str_eqb a ns) eqn:E.
+  - apply str_eqb_eq in E; subst a. rewrite aget_aupd_same.
+    destruct (aget ns (spaces s)) as [d|]; cbn [option_map andb]; [|reflexivity].
+    destruct (str_eqb n (rname r)) eqn:En.
+    + apply str_eqb_eq in En; subst n. rewrite aget_aset_same. reflexivity.
+    + apply str_eqb_neq in En. rewrite aget_aset_other by exact En. reflexivity.
+  - apply str_eqb_neq in E. rewrite aget_aupd_other by exact E. reflexivity.
+Qed.
+
+Lemma has_ns_new_class ns r s k : has_ns (new_class ns r s) k = has_ns s k.
+Proof.
+  unfold new_class. destruct (has_err s); [reflexivity|]. unfold has_ns; cbn [spaces].
+  destruct (str_eqb k ns) eqn:E.
+  - apply str_eqb_eq in E; subst. rewrite aget_aupd_same. destruct (aget ns (spaces s)); reflexivity.
+  - apply str_eqb_neq in E. rewrite aget_aupd_other by exact E. reflexivity.
+Qed.
+
+Lemma second_pass_cases ns f s : serr s = None ->
+  (exists e, second_pass ns f s = set_err e s) \/
+  (second_pass ns f s = log_done ns (add_links (flat_map (links_of_rule s ns) (grules f)) s)
+   /\ unresolved false (flat_map (links_of_rule s ns) (grules f)) = []
+   /\ unresolved true (flat_map (links_of_rule s ns) (grules f)) = []).
+Proof.
+  intro He. unfold second_pass. apply has_err_false in He. rewrite He.
+  destruct (unresolved false _) eqn:E1; [|left; eexists; reflexivity].
+  destruct (unresolved true _) eqn:E2; [|left; eexists; reflexivity].
+  right. repeat split; reflexivity.
+Qed.
+
+(* ------------------------------------------------------------------ what only grows *)
+Record grow (s s' : st) : Prop := {
+  g_ns : forall k, has_ns s k = true -> has_ns s' k = true;
+  g_lk : forall a n, lookup_in s a n <> None -> lookup_in s' a n <> None;
+  g_done : incl (done s) (done s');
+  g_backs : backs s' = [] -> backs s = [];
+  g_err : serr s' = None -> serr s = None;
+  g_links : incl (links s) (links s');
+  g_loads : incl (loads s) (loads s') }.
+
+Lemma grow_refl s : grow s s.
+Proof. constructor; auto using incl_refl. Qed.
+
+Lemma grow_trans a b c : grow a b -> grow b c -> grow a c.
+Proof.
+  intros [A1 A2 A3 A4 A5 A6 A7] [B1 B2 B3 B4 B5 B6 B7]. constructor; eauto using incl_tran.
+Qed.
+
+Lemma app_nil_inv {A} (l l' : list A) : l ++ l' = [] -> l = [].
+Proof. destruct l; [reflexivity | discriminate]. Qed.
+
+Lemma grow_load fs fuel stk ns s : grow s (load fuel fs stk ns s).
+Proof.
+  apply load_rel.
+  - apply grow_refl.
+  - apply grow_trans.
+  - intros e t He. constructor; cbn; auto using incl_refl.
+  - intros a t He Hn. constructor; cbn [done backs serr links loads enter]; auto using incl_refl.
+    + intros k Hk. rewrite has_ns_enter, Hk. reflexivity.
+    + intros b n H. rewrite lookup_in_enter by exact Hn. exact H.
+  - intros cur a t He. constructor; cbn; auto using incl_refl.
+  - intros cur a t He. constructor; cbn; auto using incl_refl. apply app_nil_inv.
+  - intros n t He. constructor; cbn; auto using incl_refl. apply incl_appl, incl_refl.
+  - intros n f r t He Hf Hr. constructor.
+    + intros k Hk. rewrite has_ns_new_class. exact Hk.
+    + intros a m H. rewrite lookup_in_new_class by exact He.
+      destruct (str_eqb a n && has_ns t n && str_eqb m (rname r)); [discriminate | exact H].
+    + unfold new_class. destruct (has_err t); cbn; apply incl_refl.
+    + unfold new_class. destruct (has_err t); cbn; auto.
+    + unfold new_class. destruct (has_err t); cbn; auto.
+    + unfold new_class. destruct (has_err t); cbn; apply incl_refl.
+    + unfold new_class. destruct (has_err t); cbn; apply incl_refl.
+  - intros n f t He Hf. destruct (second_pass_cases n f t He) as [[e ->]|[-> _]].
+    + constructor; cbn; auto using incl_refl.
+    + constructor; cbn; auto using incl_refl; try (apply incl_appl, incl_refl).
+Qed.
+
+(* ------------------------------------------------------------------ the class tables *)
+Lemma number_from_In {A} (l : list A) : forall k i x,
+  In (i, x) (number_from k l) -> k <= i /\ nth_error l (i - k) = Some x.
+Proof.
+  induction l as [|a l IH]; intros k i x H; cbn [number_from In] in H; [contradiction|].
+  destruct H as [H|H].
+  - inversion H; subst. split; [lia|]. replace (i - i) with 0 by lia. reflexivity.
+  - apply IH in H as [H1 H2]. split; [lia|]. replace (i - k) with (S (i - S k)) by lia. exact H2.
+Qed.
+
+Lemma aget_map_In {A B} (g : A -> list N) (h : A -> B) (l : list A) n v :
+  aget n (map (fun p => (g p, h p)) l) = Some v -> exists p, In p l /\ g p = n /\ v = h p.
+Proof.
+  induction l as [|p l IH]; cbn [map aget]; [discriminate|].
+  destruct (str_eqb n (g p)) eqn:E.
+  - intro H. inversion H; subst. apply str_eqb_eq in E. exists p. split; [left; reflexivity | split; [symmetry; exact E | reflexivity]].
+  - intro H. destruct (IH H) as (q & Hq & Hg & Hv). exists q. split; [right; exact Hq | split; assumption].
+Qed.
+
+Lemma base_lookup n c : aget n base_dict = Some c ->
+  c_ns c = BASE /\ c_name c = n /\ c_id c < length base_names /\ is_base n = true /\
+  nth_error base_names (c_id c) = Some n.
+Proof.
+  unfold base_dict. intro H. apply aget_map_In in H as ([i x] & Hin & Hg & Hv). cbn [fst snd] in *. subst.
+  apply number_from_In in Hin as [_ Hn]. replace (i - 0) with i in Hn by lia. cbn [c_ns c_name c_id].
+  repeat split; try reflexivity.
+  - apply nth_error_Some. rewrite Hn. discriminate.
+  - apply mem_str_In. eapply nth_error_In. exact Hn.
+  - exact Hn.
+Qed.
+
+Lemma base_complete n : is_base n = true -> aget n base_dict <> None.
+Proof. unfold is_base. intro H. revert H. vm_compute. repeat (destruct (str_eqb n _); [discriminate|]). Abort.
+
+Section Inv.
+  Variable fs : list (list N * gfile).
+
+  Definition cls_inv (s : st) : Prop := forall a n c, lookup_in s a n = Some c ->
+    c_ns c = a /\ c_name c = n /\ c_id c < created s /\
+    ((a = BASE /\ is_base n = true) \/ defines fs a n = true).
+  Definition id_inj (s : st) : Prop := forall a n c a' n' c',
+    lookup_in s a n = Some c -> lookup_in s a' n' = Some c' -> c_id c = c_id c' -> a = a' /\ n = n'.
+  Definition sync (s : st) : Prop := akeys (spaces s) = akeys (imported s).
+  Definition CF (s : st) : Prop := sync s /\ cls_inv s /\ id_inj s.
+
+  Lemma CF_same s s' : spaces s' = spaces s -> akeys (imported s') = akeys (imported s) -> created s' = created s ->
+    CF s -> CF s'.
+  Proof.
+    intros Hs Hi Hc (A & B & C). unfold CF, sync, cls_inv, id_inj, lookup_in in *. rewrite Hs, Hi, Hc.
+    split; [|split]; assumption.
+  Qed.
+
+  Lemma CF_init : CF init.
+  Proof.
+    assert (L : forall a n c, lookup_in init a n = Some c -> a = BASE /\ aget n base_dict = Some c).
+    { intros a n c. unfold lookup_in, init; cbn [spaces aget]. destruct (str_eqb a BASE) eqn:E; [|discriminate].
+      apply str_eqb_eq in E. intro H. split; assumption. }
+    split; [reflexivity|]. split.
+    - intros a n c H. apply L in H as [-> H]. apply base_lookup in H as (H1 & H2 & H3 & H4 & _).
+      repeat split; try assumption. left. split; [reflexivity | assumption].
+    - intros a n c a' n' c' H H' Hid. apply L in H as [-> H]. apply L in H' as [-> H'].
+      apply base_lookup in H as (_ & _ & _ & _ & H). apply base_lookup in H' as (_ & _ & _ & _ & H').
+      rewrite Hid in H. rewrite H in H'. inversion H'. split; reflexivity.
+  Qed.
+
+  Lemma CF_enter a s : has_ns s a = false -> CF s -> CF (enter a s).
+  Proof.
+    intros Hn (A & B & C). split; [|split].
+    - unfold sync, enter, akeys in *; cbn [spaces imported]. rewrite !map_app, A. reflexivity.
+    - intros b n c H. rewrite lookup_in_enter in H by exact Hn. apply B in H. exact H.
+    - intros b n c b' n' c' H H'. rewrite lookup_in_enter in H, H' by exact Hn. apply C; assumption.
+  Qed.
+
+  Lemma defines_rule ns f r : aget ns fs = Some f -> In r (grules f) -> defines fs ns (rname r) = true.
+  Proof.
+    intros Hf Hr. unfold defines. rewrite Hf. apply mem_str_In. apply in_map. exact Hr.
+  Qed.
+
+  Lemma CF_new_class ns f r s : serr s = None -> aget ns fs = Some f -> In r (grules f) ->
+    CF s -> CF (new_class ns r s).
+  Proof.
+    intros He Hf Hr (A & B & C).
+    assert (Hcr : created (new_class ns r s) = S (created s)).
+    { unfold new_class. apply has_err_false in He. rewrite He. reflexivity. }
+    split; [|split].
+    - unfold sync, new_class. destruct (has_err s); [exact A|]. cbn [spaces imported]. rewrite akeys_aupd. exact A.
+    - intros a n c H. rewrite lookup_in_new_class in H by exact He. rewrite Hcr.
+      destruct (str_eqb a ns && has_ns s ns && str_eqb n (rname r)) eqn:E.
+      + apply andb_true_iff in E as [E E3]. apply andb_true_iff in E as [E1 _].
+        apply str_eqb_eq in E1, E3. subst a n. inversion H; subst c. cbn [mk_cls c_ns c_name c_id].
+        repeat split; try reflexivity; [lia|]. right. eapply defines_rule; eassumption.
+      + apply B in H as (H1 & H2 & H3 & H4). repeat split; try assumption. lia.
+    - intros a n c a' n' c' H H' Hid. rewrite lookup_in_new_class in H, H' by exact He.
+      destruct (str_eqb a ns && has_ns s ns && str_eqb n (rname r)) eqn:E;
+      destruct (str_eqb a' ns && has_ns s ns && str_eqb n' (rname r)) eqn:E'.
+      + apply andb_true_iff in E as [E E3]. apply andb_true_iff in E as [E1 _].
+        apply andb_true_iff in E' as [E' E3']. apply andb_true_iff in E' as [E1' _].
+        apply str_eqb_eq in E1, E3, E1', E3'. subst. split; reflexivity.
+      + inversion H; subst c. apply B in H' as (_ & _ & H' & _). cbn [mk_cls c_id] in Hid. lia.
+      + inversion H'; subst c'. apply B in H as (_ & _ & H & _). cbn [mk_cls c_id] in Hid. lia.
+      + eapply C; eassumption.
+  Qed.
+
+  Lemma CF_load fuel stk ns s : CF s -> CF (load fuel fs stk ns s).
+  Proof.
+    apply (load_rel fs (fun s s' => CF s -> CF s')).
+    - auto.
+    - auto.
+    - intros e t _. apply CF_same; reflexivity.
+    - intros a t _. apply CF_enter.
+    - intros cur a t _. apply CF_same; [reflexivity | cbn [imported add_imported]; apply akeys_aupd | reflexivity].
+    - intros cur a t _. apply CF_same; reflexivity.
+    - intros n t _. apply CF_same; reflexivity.
+    - intros n f r t. apply CF_new_class.
+    - intros n f t He _. destruct (second_pass_cases n f t He) as [[e ->]|[-> _]]; apply CF_same; reflexivity.
+  Qed.
+End Inv.
+
+(* ------------------------------------------------------------------ resolution = documented order *)
+Lemma BC_init n : is_base n = true -> lookup_in init BASE n <> None.
+Proof.
+  unfold lookup_in, init; cbn [spaces aget]. replace (str_eqb BASE BASE) with true by (vm_compute; reflexivity).
+  unfold is_base, mem_str, base_dict, base_names.
+  cbn [existsb number_from map aget fst snd].
+  repeat (destruct (str_eqb n _); [intros _ H; discriminate H|]). cbn [orb]. discriminate.
+Qed.
+
+Lemma unresolved_nil b ls : unresolved b ls = [] -> forall l, In l ls -> l_cref l = b -> l_target l <> None.
+Proof.
+  unfold unresolved. intros H l Hl Hb Ht.
+  assert (Hin : In l (filter (fun l => Bool.eqb (l_cref l) b && match l_target l with None => true | Some _ => false end) ls)).
+  { apply filter_In. split; [exact Hl|]. rewrite Hb, Ht, Bool.eqb_reflx. reflexivity. }
+  destruct (filter _ ls); [contradiction | discriminate].
+Qed.
+
+Section Main.
+  Variable fs : list (list N * gfile).
+  Hypothesis Hbase : aget BASE fs = None.
+
+  Definition DI (s : st) : Prop :=
+    forall a, In a (done s) -> forall n, defines fs a n = true -> lookup_in s a n <> None.
+  Definition OS (stk : list (list N)) (s : st) : Prop :=
+    forall a, has_ns s a = true -> a = BASE \/ In a (done s) \/ In a stk.
+  Definition LK (s : st) : Prop := backs s = [] -> forall l, In l (links s) -> link_ok fs l.
+  Definition BC (s : st) : Prop := forall n, is_base n = true -> lookup_in s BASE n <> None.
+
+  Definition Ready (ns : list N) (f : gfile) (s : st) : Prop :=
+    aget ns fs = Some f /\
+    (forall r, In r (grules f) -> lookup_in s ns (rname r) <> None) /\
+    imports_of s ns = BASE :: map (abs_import ns) (gimports f) /\
+    (forall a, In a (map (abs_import ns) (gimports f)) -> In a (done s) \/ a = BASE).
+
+  Lemma defines_base n : defines fs BASE n = false.
+  Proof. unfold defines. rewrite Hbase. reflexivity. Qed.
+
+  Lemma not_base_lookup s n : cls_inv fs s -> is_base n = false -> lookup_in s BASE n = None.
+  Proof.
+    intros B Hn. destruct (lookup_in s BASE n) as [c|] eqn:E; [|reflexivity].
+    apply B in E as (_ & _ & _ & [[_ H]|H]); [congruence | rewrite defines_base in H; discriminate].
+  Qed.
+
+  Lemma first_def_spec s imps name : cls_inv fs s -> DI s -> is_base name = false ->
+    (forall a, In a imps -> In a (done s) \/ a = BASE) ->
+    option_map cls_key (first_def s imps name) = option_map (fun i => (i, name)) (first_defining fs imps name).
+  Proof.
+    intros B D Hn. induction imps as [|a imps IH]; intro Himps; cbn [first_def first_defining]; [reflexivity|].
+    assert (IH' := IH (fun x Hx => Himps x (or_intror Hx))). clear IH.
+    destruct (Himps a (or_introl eq_refl)) as [Hd| ->].
+    - destruct (defines fs a name) eqn:Df.
+      + destruct (lookup_in s a name) as [c|] eqn:E; [|exfalso; exact (D a Hd name Df E)].
+        apply B in E as (H1 & H2 & _). unfold cls_key. cbn [option_map]. rewrite H1, H2. reflexivity.
+      + destruct (lookup_in s a name) as [c|] eqn:E; [|exact IH'].
+        apply B in E as (_ & _ & _ & [[_ H]|H]); congruence.
+    - rewrite defines_base, (not_base_lookup s name B Hn). exact IH'.
+  Qed.
+
+  Lemma ready_lookup ns f s name c : Ready ns f s -> cls_inv fs s -> DI s -> BC s ->
+    lookup s ns name = Some c -> Some (cls_key c) = spec_resolve fs ns name.
+  Proof.
+    intros (Hf & Hown & Himp & Hdone) B D Hbc. unfold lookup, spec_resolve.
+    destruct (rsplit1 name) as [[q n]|].
+    - intro E. apply B in E as (H1 & H2 & _ & Hd). unfold cls_key. rewrite H1, H2.
+      destruct (defines fs q n); [reflexivity|]. destruct Hd as [[-> Hb]|Hd]; [|discriminate].
+      rewrite Hb. replace (str_eqb BASE BASE) with true by (vm_compute; reflexivity). reflexivity.
+    - assert (Hns : ns <> BASE) by (intro; subst; congruence).
+      destruct (defines fs ns name) eqn:Df.
+      + assert (Hl : lookup_in s ns name <> None).
+        { unfold defines in Df. rewrite Hf in Df. apply mem_str_In in Df. apply in_map_iff in Df as (r & Hr & Hin).
+          subst name. apply Hown. exact Hin. }
+        destruct (lookup_in s ns name) as [c'|] eqn:E; [|contradiction]. intro H. inversion H; subst c'.
+        apply B in E as (H1 & H2 & _). unfold cls_key. rewrite H1, H2. reflexivity.
+      + destruct (lookup_in s ns name) as [c'|] eqn:E.
+        { apply B in E as (_ & _ & _ & [[H _]|H]); congruence. }
+        rewrite Himp. cbn [first_def]. destruct (is_base name) eqn:Ib.
+        * destruct (lookup_in s BASE name) as [c'|] eqn:E'; [|exfalso; exact (Hbc name Ib E')].
+          intro H. inversion H; subst c'. apply B in E' as (H1 & H2 & _). unfold cls_key. rewrite H1, H2. reflexivity.
+        * rewrite (not_base_lookup s name B Ib). intro H.
+          pose proof (first_def_spec s _ name B D Ib Hdone) as Hs. rewrite H in Hs. cbn [option_map] in Hs.
+          unfold abs_imports. rewrite Hf. destruct (first_defining fs _ name); cbn [option_map] in Hs; [|discriminate].
+          inversion Hs. reflexivity.
+  Qed.
+
+  (* when the look-up fails, the documented resolution has no rule either (unqualified names) *)
+  Lemma ready_lookup_none ns f s name : Ready ns f s -> cls_inv fs s -> DI s -> BC s ->
+    has_dot name = false -> lookup s ns name = None -> spec_resolve fs ns name = None.
+  Proof.
+    intros (Hf & Hown & Himp & Hdone) B D Hbc Hd. unfold lookup, spec_resolve. rewrite (rsplit1_nodot _ Hd).
+    destruct (lookup_in s ns name) as [c'|] eqn:E; [discriminate|].
+    destruct (defines fs ns name) eqn:Df.
+    { exfalso. unfold defines in Df. rewrite Hf in Df. apply mem_str_In in Df. apply in_map_iff in Df as (r & Hr & Hin).
+      subst name. exact (Hown r Hin E). }
+    rewrite Himp. cbn [first_def]. destruct (is_base name) eqn:Ib.
+    - destruct (lookup_in s BASE name) eqn:E'; [discriminate | exfalso; exact (Hbc name Ib E')].
+    - rewrite (not_base_lookup s name B Ib). intro H.
+      pose proof (first_def_spec s _ name B D Ib Hdone) as Hs. rewrite H in Hs. cbn [option_map] in Hs.
+      unfold abs_imports. rewrite Hf. destruct (first_defining fs _ name); [discriminate | reflexivity].
+  Qed.
+End Main.
+
+(* ------------------------------------------------------------------ import lists under the steps *)
+Lemma aget_some_keys {A} k (l : list (list N * A)) : aget k l <> None <-> In k (akeys l).
+Proof.
+  split.
+  - intro H. destruct (in_dec (list_eq_dec N.eq_dec) k (akeys l)) as [Hi|Hi]; [exact Hi|].
+    apply aget_none_keys in Hi. contradiction.
+  - intros Hi H. apply aget_none_keys in H. contradiction.
+Qed.
+
+Lemma sync_has_ns s k : sync s -> (has_ns s k = true <-> aget k (imported s) <> None).
+Proof.
+  unfold sync, has_ns. intro H. rewrite aget_some_keys, <- H, <- aget_some_keys.
+  destruct (aget k (spaces s)); split; intro X; try reflexivity; try discriminate. contradiction.
+Qed.
+
+Lemma imports_of_enter_old a s k : aget k (imported s) <> None -> imports_of (enter a s) k = imports_of s k.
+Proof.
+  unfold imports_of, enter; cbn [imported]. intro H. rewrite aget_app.
+  destruct (aget k (imported s)); [reflexivity | contradiction].
+Qed.
+
+Lemma imports_of_enter_new a s : aget a (imported s) = None -> imports_of (enter a s) a = [BASE].
+Proof.
+  unfold imports_of, enter; cbn [imported]. intro H. rewrite aget_app, H. cbn [aget]. rewrite str_eqb_refl. reflexivity.
+Qed.
+
+Lemma imports_of_add_same cur a s : aget cur (imported s) <> None ->
+  imports_of (add_imported cur a s) cur = imports_of s cur ++ [a].
+Proof.
+  unfold imports_of, add_imported; cbn [imported]. intro H. rewrite aget_aupd_same.
+  destruct (aget cur (imported s)); [reflexivity | contradiction].
+Qed.
+
+Lemma imports_of_add_other cur a s k : k <> cur -> imports_of (add_imported cur a s) k = imports_of s k.
+Proof.
+  unfold imports_of, add_imported; cbn [imported]. intro H. rewrite aget_aupd_other by exact H. reflexivity.
+Qed.
+
+Lemma has_ns_neq s a k : has_ns s a = false -> has_ns s k = true -> k <> a.
+Proof. intros Ha Hk E. subst. congruence. Qed.
+
+(* the rule names of one file *)
+Lemma fold_classes_props ns rs : forall s, serr s = None -> has_ns s ns = true ->
+  let s' := fold_left (fun s r => new_class ns r s) rs s in
+  serr s' = None /\ done s' = done s /\ links s' = links s /\ backs s' = backs s /\ imported s' = imported s /\
+  (forall k, has_ns s' k = has_ns s k) /\
+  (forall a n, lookup_in s a n <> None -> lookup_in s' a n <> None) /\
+  (forall r, In r rs -> lookup_in s' ns (rname r) <> None).
+Proof.
+  induction rs as [|r rs IH]; intros s He Hn; cbn [fold_left].
+  - repeat split; auto.
+  - assert (He' : serr (new_class ns r s) = None).
+    { unfold new_class. destruct (has_err s); [exact He | exact He]. }
+    assert (Hn' : has_ns (new_class ns r s) ns = true) by (rewrite has_ns_new_class; exact Hn).
+    destruct (IH _ He' Hn') as (A1 & A2 & A3 & A4 & A5 & A6 & A7 & A8). cbv zeta in *.
+    assert (Hf : has_err s = false) by (apply has_err_false; exact He).
+    repeat split.
+    + exact A1.
+    + rewrite A2. unfold new_class. rewrite Hf. reflexivity.
+    + rewrite A3. unfold new_class. rewrite Hf. reflexivity.
+    + rewrite A4. unfold new_class. rewrite Hf. reflexivity.
+    + rewrite A5. unfold new_class. rewrite Hf. reflexivity.
+    + intro k. rewrite A6. apply has_ns_new_class.
+    + intros a n H. apply A7. rewrite lookup_in_new_class by exact He.
+      destruct (str_eqb a ns && has_ns s ns && str_eqb n (rname r)); [discriminate | exact H].
+    + intros r' [<-|Hr]; [|apply A8; exact Hr]. apply A7. rewrite lookup_in_new_class by exact He.
+      rewrite !str_eqb_refl, Hn. discriminate.
+Qed.
